@@ -12,3 +12,4 @@ func (l *weakLedger) enabled() bool                      { return false }
 func (l *weakLedger) track(c uint64, p *Canary)          {}
 func (l *weakLedger) alive(c uint64) (known, alive bool) { return false, false }
 func (l *weakLedger) forget(c uint64)                    {}
+func (l *weakLedger) ids() []uint64                      { return nil }
